@@ -72,11 +72,12 @@ def criterion(strategy, kw, c):
     if tp == 0:
       return True, Fraction(0)
     return True, (1 + b2) * tp / ((1 + b2) * tp + b2 * fn + fp)
-  r = Fraction(kw['min_rate'])
   tpr, tnr = Fraction(tp, P), Fraction(tn, N)
+  # admissibility as a user of the library computes it: the rate tn/N (tp/P) as a float against the float min_rate.  (min_rate = 0.2
+  # means "one in five": the cut-off with TNR 1/5 is admissible, although the double 0.2 is a hair above the rational 1/5.)
   if strategy == 'max_tpr':
-    return tnr >= r, tpr
-  return tpr >= r, tnr
+    return (tn / N) >= kw['min_rate'], tpr
+  return (tp / P) >= kw['min_rate'], tnr
 
 
 def check_calibrated(est, pairs, y, strategy, kw, dist=None):
@@ -324,6 +325,23 @@ def side_cases(ml, tier, seed):
                                       check_instance(_estimator(cls), labels, dists, strategy, kw)),
                    dict(estimator='%s with components_=[[1.]]' % cls, distances=list(dists), y=list(labels), strategy=strategy, **kw),
                    'tied distances' if has_ties(dists) else 'distinct distances')
+    # min_rate attained EXACTLY by a cut-off (rates k/N that are not exactly representable: N = 5, 10 negatives / positives)
+    if cls == 'ITML':
+      rs = np.random.RandomState(seed + 16)
+      for N in ((5,) if tier == 'quick' else (5, 10, 7)):
+        for rep_ in range(3 if tier == 'quick' else 8):
+          n = N + 3
+          order = rs.permutation(n)
+          for strategy in ('max_tpr', 'max_tnr'):
+            # N of the constrained class, 3 of the other
+            labels = tuple((-1 if strategy == 'max_tpr' else 1) if i < N else (1 if strategy == 'max_tpr' else -1) for i in order)
+            dists = tuple(float(v) for v in range(n))
+            for k_ in range(1, N):
+              kw = dict(min_rate=k_ / N)
+              desc = 'ITML boundary n=%d y=%r d=0..%d %s min_rate=%d/%d' % (n, labels, n - 1, strategy, k_, N)
+              yield (desc, (TAG_CAL,), (lambda labels=labels, dists=dists, strategy=strategy, kw=kw: check_instance(_estimator('ITML'), labels, dists, strategy, kw)),
+                     dict(estimator='ITML with components_=[[1.]]', distances=list(dists), y=list(labels), strategy=strategy, **kw),
+                     'min_rate attained exactly (k/N not representable)')
     for k in range(2 if tier == 'quick' else 10):
       for strategy, kw in STRATEGIES:
         desc = '%s().fit(random pairs #%d, calibration_params=%s %r)' % (cls, k, strategy, kw)
